@@ -174,11 +174,12 @@ func scribble(b []byte) {
 }
 
 func (e *Env) retain(b []byte, what string) {
-	cap := e.RetainCap
-	if cap == 0 {
-		cap = 64
+	limit := e.RetainCap
+	if limit == 0 {
+		limit = 64
 	}
-	if e.NoRetain || len(b) == 0 || len(e.retained) >= cap {
+	// an empty slice is the caller's too: what matters is the memory up to its capacity
+	if e.NoRetain || cap(b) == 0 || len(e.retained) >= limit {
 		return
 	}
 	e.Probes["slices_retained"]++
@@ -191,8 +192,8 @@ func (e *Env) CheckRetained(when string) *Violation {
 		if !bytes.Equal(r.live, r.snap) {
 			return violf("returned-slice-changed", "slice returned by %s changed %s: was %s now %s", r.what, when, clip(r.snap), clip(r.live))
 		}
-		if e.FS.Overlaps(r.live) {
-			return violf("returned-slice-aliases-file", "slice returned by %s points into a file buffer (%s)", r.what, when)
+		if e.FS.Overlaps(r.live[:cap(r.live)]) {
+			return violf("returned-slice-aliases-file", "slice returned by %s (len %d, cap %d) points into a file buffer (%s)", r.what, len(r.live), cap(r.live), when)
 		}
 	}
 	return nil
